@@ -68,12 +68,28 @@ def gen_cfg(rng, default_bias=0.15):
         gse_enabled=bool(rng.random() < 0.7), lifecycle_enabled=bool(rng.random() < 0.6))
 
 
+def _fuel_pool():
+    # a dozen fixed fuels that come back all through a run under changing configurations: equal-valued fuel objects are equal
+    # (and hash equal), so anything the library remembers per fuel is exercised across configurations, with a first use that has
+    # some constant species switched off for most of them
+    r = np.random.Generator(np.random.PCG64(20240917))
+    return [dict(name=f'pool{i}', energy_MJ_per_kg=float(r.uniform(40, 46)), EI_H2O=float(r.uniform(1100, 1400)),
+                 EI_CO2=float(r.uniform(2900, 3250)), non_volatile_carbon_fraction=0.95,
+                 lifecycle_CO2=float(r.uniform(10, 110)), fuel_sulfur_content_nom=float(r.uniform(1, 3000)),
+                 sulfate_yield_nom=float(r.uniform(0.001, 0.1))) for i in range(12)]
+
+
+FUEL_POOL = _fuel_pool()
+
+
 def gen_fuel(rng):
     u = rng.random()
-    if u < 0.3:
+    if u < 0.2:
         return dict(FUELS['jetA'])
-    if u < 0.45:
+    if u < 0.3:
         return dict(FUELS['SAF'])
+    if u < 0.55:
+        return dict(FUEL_POOL[int(rng.integers(len(FUEL_POOL)))])
     return dict(name='gen', energy_MJ_per_kg=_r(rng, 40, 46), EI_H2O=_r(rng, 1100, 1400), EI_CO2=_r(rng, 2900, 3250),
                 non_volatile_carbon_fraction=0.95,
                 lifecycle_CO2=(None if rng.random() < 0.25 else _r(rng, 10, 110)),
@@ -511,7 +527,14 @@ def clauses(case, mode, E, check_sign=True):
         if not eq(tot, math.fsum(terms), _scale(terms)):
             bad.append(('total_eq_sum_of_parts', f'{s}: total {tot!r} != re-summed parts {math.fsum(terms)!r}'))
     # --- every kilogram of trajectory fuel counted once: CO2 / H2O = EI x fuel, in both accounting modes
+    cfgd = case['cfg']
     for s, ei in (('CO2', f['EI_CO2']), ('H2O', f['EI_H2O'])):
+        if cfgd.get(s.lower() + '_enabled') and (s not in E['traj_em'] or s not in E['lto_em']):
+            # the species is switched ON: its trajectory + LTO amount must be EI x (trajectory + LTO fuel), so it cannot be missing
+            # (a missing entry counts as zero emitted for all the fuel that was burnt)
+            miss = [c for c in ('traj_em', 'lto_em') if s not in E[c]]
+            bad.append(('co2_h2o_eq_ei_times_fuel', f'{s} is enabled but has no {"/".join(miss)} entry: amount 0 g for '
+                                                    f'{traj_fuel + math.fsum(lto_fuel)!r} kg of trajectory+LTO fuel (EI {ei!r})'))
         if s in E['traj_em']:
             got = math.fsum(E['traj_em'][s])
             if not eq(got, ei * traj_fuel, ei * _scale(burn)):
